@@ -1384,7 +1384,7 @@ def check_C02(ctx):
 def check_C01(ctx):
     ctx.cov["rule"] = (FRAME_RULE + "; every scenario ends with Wait under a hang timeout (frames / sched with perturbation / faults), and the late "
                        "family ends containers by Wait, Shutdown, cancellation and Wait racing with Add under concurrent API calls")
-    ctx.assumptions = ["fairness of the Go scheduler", "a hang is a wait of the harness on the library that exceeds 60 s"]
+    ctx.assumptions = ["fairness of the Go scheduler", "a hang is a wait of the harness on the library that exceeds 30 s"]
     sigs = set()
     frames_check(ctx, {"HM_END", "HM_STATE", "CT_DONE", "CT_EXIT", "BAR_EXIT", "CT_RENDERBEGIN", "HM_ITERREQ"}, M.c01_monitor, 300, 8000,
                  LIFE_DEPS | {"Props/C01.v"}, fams=ALLFAMS)
